@@ -67,4 +67,49 @@ theorem continues_of {σ} (S : Sys σ) (a : Spec σ) (op : Op)
     · rw [hf] at h; cases h
     · exact ⟨g', last, c, (by intro pts' h; cases h; exact hmem), (by intro t' n' h; cases h)⟩
 
+/-! ### `scaledValues` -/
+
+theorem scaledValues_some (p : Pars) : ∀ (kvs u : Upd), scaledValues p kvs = some u →
+    u.length = kvs.length ∧
+    ∀ i (h : i < kvs.length) (h' : i < u.length), u[i].1 = kvs[i].1 ∧
+      ∃ v, p.lookup kvs[i].1 = some v ∧ u[i].2 = v * kvs[i].2
+  | [], u, h => by
+    simp only [scaledValues, Option.some.injEq] at h
+    subst h
+    exact ⟨rfl, fun i h => by simp at h⟩
+  | (k, f) :: rest, u, h => by
+    simp only [scaledValues] at h
+    cases hl : p.lookup k with
+    | none => simp [hl] at h
+    | some v =>
+      simp only [hl] at h
+      cases hr : scaledValues p rest with
+      | none => simp [hr] at h
+      | some r =>
+        simp only [hr, Option.some.injEq] at h
+        subst h
+        obtain ⟨hlen, hall⟩ := scaledValues_some p rest r hr
+        refine ⟨by simp [hlen], ?_⟩
+        intro i hi hi'
+        cases i with
+        | zero => exact ⟨rfl, v, hl, rfl⟩
+        | succ i =>
+          simp only [List.getElem_cons_succ]
+          exact hall i (by simpa using hi) (by simpa using hi')
+
+theorem scaledValues_none (p : Pars) : ∀ (kvs : Upd), scaledValues p kvs = none →
+    ∃ kf ∈ kvs, p.lookup kf.1 = none
+  | [], h => by simp [scaledValues] at h
+  | (k, f) :: rest, h => by
+    simp only [scaledValues] at h
+    cases hl : p.lookup k with
+    | none => exact ⟨(k, f), by simp, hl⟩
+    | some v =>
+      simp only [hl] at h
+      cases hr : scaledValues p rest with
+      | none =>
+        obtain ⟨kf, hm, hk⟩ := scaledValues_none p rest hr
+        exact ⟨kf, List.mem_cons_of_mem _ hm, hk⟩
+      | some r => simp [hr] at h
+
 end Mxl.C04
